@@ -45,7 +45,13 @@ def main():
             cases.append((k + ".out[3]+1", rnd.choice(by[k]), bump("out"), "line"))
     cases.append(("Grad.err=true", rnd.choice(by["Grad"]), lambda x: x.__setitem__("err", True), "line"))
     cases.append(("HessTimes.ex=false", rnd.choice(by["HessTimes"]), lambda x: x.__setitem__("ex", False), "line"))
-    cases.append(("Sens.sub+1", [i for i in by["Sens"] if recs[i]["sub"] == 0][0], lambda x: x.__setitem__("sub", 1), "any"))
+    def inst(i):
+        while recs[i]["e"] != "Instance":
+            i -= 1
+        return recs[i]
+    # (without subset sensitivities every subset reports total/N, so the subset number only matters with them)
+    cases.append(("Sens.sub 0->1", [i for i in by["Sens"] if recs[i]["sub"] == 0 and inst(i)["uss"] and inst(i)["N"] >= 2][0],
+                  lambda x: x.__setitem__("sub", 1), "any"))
     cases.append(("SetUp.ok=false", rnd.choice(by["SetUp"]), lambda x: x.__setitem__("ok", False), "line"))
     cases.append(("Instance.y[5]+1", rnd.choice(by["Instance"]), bump("y", 5), "any"))
     cases.append(("Instance.lam[0]+1", rnd.choice(by["Instance"]), bump("lam", 0), "any"))
